@@ -69,11 +69,28 @@ def build_cycle(rng, template, Kn, M, trigger):
         per_round = 1
     else:
         raise ValueError(template)
+    delays = {}
+    if template in ("raise", "raise_reenter", "raise_fan") and rng.random() < 0.35:
+        # the feedback edge spelled with an explicit ZERO delay (literal, or a named delay resolving to 0): still the same chain
+        dz = rng.choice((0, "D0"))
+        delays["D0"] = 0
+
+        def zero(c):
+            for f in ("entry",):
+                for a in c.get(f) or []:
+                    if isinstance(a, dict) and a.get("type") == "xstate.raise":
+                        a["params"]["delay"] = dz
+            for tl in (c.get("on") or {}).values():
+                for t in tl:
+                    for a in t.get("actions") or []:
+                        if isinstance(a, dict) and a.get("type") == "xstate.raise":
+                            a["params"]["delay"] = dz
+        zero(states["A"])
     states["Z"] = {"entry": [_mk("en.m.Z", acts)], "exit": [_mk("ex.m.Z", acts)], "on": {"PROBE": {"actions": [_mk("tr.TP2", acts)]}}}
     states["I"] = {"entry": [_mk("en.m.I", acts)], "exit": [_mk("ex.m.I", acts)], "on": {"GO": {"target": "#m." + loop_entry, "actions": [_mk("tr.TG", acts)]}}}
     cfg = {"id": "m", "initial": loop_entry if trigger == "start" else "I", "context": {"n": 0}, "maxIterations": M,
            "entry": [_mk("en.m", acts)], "exit": [_mk("ex.m", acts)], "on": dict(probe, **burst), "states": states}
-    return cfg, {"actions": acts, "guards": guards, "services": {}, "delays": {}}, {"per_round": per_round}
+    return cfg, {"actions": acts, "guards": guards, "services": {}, "delays": delays}, {"per_round": per_round}
 
 
 def gen_c13(engine):
